@@ -20,21 +20,26 @@ RULE = ("kinds: plain (random rows, arity 1-3, constructed with no mappings; obs
         "-0.0, subnormal, inf; observations as raw bit patterns incl. -0.0, subnormals, +-inf, quiet/signalling NaN payloads, "
         "random 64-bit patterns. Non-trivial: at least 2 rows; distinct by canonical description.")
 THEOREMS = {
-    "C02_load_save": "every screen constructible by the constructor (any supplied mappings, any flags) that has at least one row and "
-                     "one treatment column satisfies load (save s) = Ok s: the whole record (rows, control name, the three id "
-                     "arrays, the three mappings) is reproduced",
-    "C02_load_save_observables": "the same, spelled out observable by observable (names, dose keys, observation bits, mask, control "
-                                 "name, treatment/sample/plate ids, treatment/sample/plate mappings in stored order)",
-    "C02_no_renumber": "the ids and both mappings after a load are literally those of the saved screen, and a supplied mapping "
-                       "(including entries no row uses) is what comes back",
-    "C02_fixed_point": "save (load (save s)) = save s, and any number of save/load cycles returns s",
-    "C02_load_save_characterised": "load (save s) = Ok s if the screen has >= 1 row and >= 1 column, Err otherwise (exact)",
-    "C02_load_save_refuted": "the literal clause 'any constructible screen' is false: the constructible 0-row screen saves but does "
-                             "not load (np.char.encode of a size-0 array yields a float64 array that np.char.decode rejects)",
-    "C02_space_load_save": "an experiment space with non-empty mappings is reproduced exactly, for any number of cycles; in "
-                           "particular the space of every loadable screen",
-    "C02_space_load_save_refuted": "an experiment space with an empty mapping (from_screen of the 0-row screen) saves but does not load",
-    "C02_space_fixed_point": "space_save (space_load (space_save sp)) = space_save sp and n cycles return sp",
+    "C02_load_save": "every screen returned by the constructor (any rows, flags, built or supplied mappings incl. strict supersets in "
+                     "any stored order) with >= 1 row and >= 1 treatment column satisfies load (save s) = Ok s: the whole record "
+                     "(rows, control name, the three id arrays, the three mappings) is reproduced",
+    "C02_load_save_observables": "the same, observable by observable (sample/plate/treatment names, dose keys, observation bit "
+                                 "patterns, mask, control name, treatment/sample/plate ids, the three mappings in stored order)",
+    "C02_no_renumber": "whenever a saved constructible screen loads, ids and mappings are literally those of the saved screen, and a "
+                       "supplied mapping (entries no row uses included) is what comes back",
+    "C02_fixed_point": "if load (save s) = Ok s' then save s' = save s, load (save s') = Ok s' and n cycles from s' return s'",
+    "C02_any_number_of_cycles": "n save/load cycles of a constructible screen with rows return that screen, for every n",
+    "C02_load_save_characterised": "exact: load (save s) = Ok s if rows and arity are non-zero, Err 8 (string decode of an empty "
+                                   "dataset) otherwise",
+    "C02_load_save_refuted": "the literal clause 'every constructible screen' is false: the 0-row screen is constructible, saves, "
+                             "and does not load",
+    "C02_load_save_refuted_supplied": "the same with supplied non-empty mappings (empty split of a non-empty screen)",
+    "C02_space_load_save": "an experiment space with non-empty mappings satisfies space_load (space_save sp) = Ok sp",
+    "C02_space_fixed_point": "whenever a saved space loads it is the saved space; second save identical; n cycles return it",
+    "C02_space_of_screen": "the space of every constructible screen with rows round-trips for any number of cycles, and from_screen "
+                           "commutes with the screen's own round trip",
+    "C02_space_load_save_characterised": "exact: Ok sp iff both mappings are non-empty, else Err 8",
+    "C02_space_load_save_refuted": "the space of the constructible 0-row screen saves and does not load",
 }
 ASSUMPTIONS = [
     "h5py dataset write/read is the identity on numeric and bool arrays (values bit-for-bit, shape, dtype) and on a str attribute",
